@@ -10,9 +10,11 @@ a report that matches no cached path changes neither the cache order nor the act
 when the only alternative carries its own fresh penalty the score gap stays below the swap threshold
 and traffic stays on the failed interface – known finding `C07:steer-away:alternative-penalised`).
 
+`steer_away_partial` proves steer-away under the hypothesis "every valid cached path avoiding the interface
+outscores every cached path crossing it by more than the threshold (f32-rounded difference)".
+
 What is only *exercised* by the harness on the real code (oracles in `hx_pathmgr --prop C07`):
-steer-away under the hypothesis "a valid cached alternative outscores every affected path by more than
-the threshold" (`C07:steer-away`), the swap rule that gives no-return-while-fresh (`C07:swap-rule`),
+steer-away when one valid cached alternative outscores every affected path (`C07:steer-away`), the swap rule that gives no-return-while-fresh (`C07:swap-rule`),
 recovery after 20 half-lives (`C07:not-recovered`), `matches_path` against an independent hop-level
 spec (`C07:matches-path`), and the failover probes at 0, ½, 1, 2, 10, 26 half-lives.
 -/
@@ -137,11 +139,198 @@ theorem defaultThreshold_units :
 example : Fr.lt defaultThreshold (freshGap penaltyLinkDown 3 3) := by decide
 example : ¬ Fr.lt defaultThreshold (freshGap penaltyFirstHop 3 3) := by decide
 
+/-! ## Steer-away under an explicit score hypothesis (proved) -/
+
+/-- ranked order: an earlier entry never scores lower than a later one -/
+def Desc (sc : Nat → Int) (l : List Path) : Prop := l.Pairwise (fun y x => sc x.fp ≤ sc y.fp)
+
+theorem insertBy_desc (sc : Nat → Int) (x : Path) (l : List Path) (h : Desc sc l) :
+    Desc sc (insertBy (fun y x => decide (sc x.fp < sc y.fp)) x l) := by
+  induction l with
+  | nil => simp [insertBy, Desc]
+  | cons y ys ih =>
+    unfold Desc at h
+    rw [List.pairwise_cons] at h
+    unfold insertBy
+    split
+    · next hlt =>
+      have hlt' : sc x.fp < sc y.fp := by simpa using hlt
+      unfold Desc
+      rw [List.pairwise_cons]
+      refine ⟨?_, ih h.2⟩
+      intro z hz
+      rcases (mem_insertBy _ x z ys).mp hz with hzx | hzy
+      · subst hzx; omega
+      · exact h.1 z hzy
+    · next hlt =>
+      have hge : sc y.fp ≤ sc x.fp := by
+        have : ¬ sc x.fp < sc y.fp := by simpa using hlt
+        omega
+      unfold Desc
+      rw [List.pairwise_cons, List.pairwise_cons]
+      refine ⟨?_, h.1, h.2⟩
+      intro z hz
+      rcases List.mem_cons.mp hz with hzy | hzy
+      · subst hzy; exact hge
+      · have := h.1 z hzy; omega
+
+theorem rank_desc (sc : Nat → Int) (l : List Path) : Desc sc (rank sc l) := by
+  unfold rank
+  induction l with
+  | nil => simp [sortBy, Desc]
+  | cons y ys ih =>
+    have : sortBy (fun y x => decide (sc x.fp < sc y.fp)) (y :: ys) =
+        insertBy (fun y x => decide (sc x.fp < sc y.fp)) y (sortBy (fun y x => decide (sc x.fp < sc y.fp)) ys) := rfl
+    rw [this]
+    exact insertBy_desc sc y _ ih
+
+/-- the first entry satisfying `p` of a ranked list scores at least as high as every entry satisfying `p` -/
+theorem find_desc_max (sc : Nat → Int) (p : Path → Bool) :
+    ∀ (l : List Path), Desc sc l → ∀ q ∈ l, p q = true →
+      ∃ b, l.find? p = some b ∧ b ∈ l ∧ p b = true ∧ sc q.fp ≤ sc b.fp := by
+  intro l
+  induction l with
+  | nil => intro _ q hq; cases hq
+  | cons y ys ih =>
+    intro h q hq hp
+    unfold Desc at h
+    rw [List.pairwise_cons] at h
+    by_cases hy : p y = true
+    · refine ⟨y, by simp [hy], List.mem_cons_self, hy, ?_⟩
+      rcases List.mem_cons.mp hq with hqy | hqy
+      · subst hqy; exact Int.le_refl _
+      · exact h.1 q hqy
+    · rcases List.mem_cons.mp hq with hqy | hqy
+      · subst hqy; exact absurd hp hy
+      · obtain ⟨b, hb, hbm, hpb, hle⟩ := ih h.2 q hqy hp
+        refine ⟨b, ?_, List.mem_cons_of_mem _ hbm, hpb, hle⟩
+        simp only [List.find?_cons]
+        have : p y = false := by simpa using hy
+        rw [this]
+        exact hb
+
+theorem f32Round_nonpos {x : Int} (h : x ≤ 0) : f32Round x ≤ 0 := by
+  unfold f32Round
+  simp only
+  split
+  · omega
+  · next hx =>
+    have : x = 0 := by omega
+    subst this
+    decide
+theorem find_fp_eq {l : List Path} (hn : (fps l).Nodup) {a : Path} (ha : a ∈ l) :
+    l.find? (·.fp == a.fp) = some a := by
+  cases hf : l.find? (·.fp == a.fp) with
+  | none =>
+    have := List.find?_eq_none.mp hf a ha
+    simp at this
+  | some e =>
+    have he := List.mem_of_find?_eq_some hf
+    have hfp := List.find?_some hf
+    have : e.fp = a.fp := by simpa using hfp
+    rw [eq_of_fp_eq hn he ha this]
+
+theorem decideActive_swaps (env : Env) (s : St) (now : Nat) (sc : Nat → Int) (a b : Path)
+    (hact : s.active = some a) (hbest : bestPath s.cached now env.cfg.minExpiryThreshold = some b)
+    (hae : activeEntry s = some a)
+    (hsw : env.cfg.swapThreshold < f32Round (sc b.fp - sc a.fp)) :
+    (decideActive env s now sc).1 ≠ .noChange ∧ (decideActive env s now sc).2.1 = some b := by
+  refine ⟨?_, by rw [decideActive_best, hbest]⟩
+  unfold decideActive
+  simp only [hbest, hact, baseDecision, swapCheck, hae]
+  by_cases h1 : checkExpiry a now env.cfg.minExpiryThreshold = .valid
+  · simp [h1, hsw]
+  · by_cases h2 : checkExpiry a now env.cfg.minExpiryThreshold = .near
+    · simp [h2]
+    · simp [h1, h2]
+
+theorem reevaluate_steers (env : Env) (s : St) (now : Nat) (sc : Nat → Int) (M : Path → Bool)
+    (hw : WF s) (hthr : 0 ≤ env.cfg.swapThreshold)
+    (a : Path) (hact : s.active = some a) (hma : M a = true)
+    (q : Path) (hq : q ∈ s.cached) (hqv : checkExpiry q now env.cfg.minExpiryThreshold = .valid)
+    (hqm : M q = false)
+    (hgap : ∀ b ∈ s.cached, checkExpiry b now env.cfg.minExpiryThreshold = .valid → M b = false →
+      ∀ e ∈ s.cached, M e = true → env.cfg.swapThreshold < f32Round (sc b.fp - sc e.fp)) :
+    ∃ b, (reevaluate env s now sc).active = some b ∧ M b = false := by
+  -- the best path of the re-ranked cache
+  obtain ⟨b, hbf, hbm, hbv, hle⟩ := find_desc_max sc
+    (fun p => checkExpiry p now env.cfg.minExpiryThreshold == .valid) (rank sc s.cached)
+    (rank_desc sc s.cached) q ((mem_rank sc q s.cached).mpr hq) (by simp [hqv])
+  have hbc : b ∈ s.cached := (mem_rank sc b s.cached).mp hbm
+  have hbv' : checkExpiry b now env.cfg.minExpiryThreshold = .valid := by simpa using hbv
+  have hac : a ∈ s.cached := hw.active_mem a hact
+  -- it does not match: otherwise q would have to outscore it
+  have hbM : M b = false := by
+    cases hmb : M b with
+    | false => rfl
+    | true =>
+      have h1 := hgap q hq hqv hqm b hbc hmb
+      have h2 : f32Round (sc q.fp - sc b.fp) ≤ 0 := f32Round_nonpos (by omega)
+      omega
+  have hfp : (a.fp == b.fp) = false := by
+    cases h : a.fp == b.fp with
+    | false => rfl
+    | true =>
+      have : a = b := eq_of_fp_eq hw.nodup hac hbc (by simpa using h)
+      rw [this, hbM] at hma
+      cases hma
+  refine ⟨b, ?_, hbM⟩
+  have hnd : (fps (rank sc s.cached)).Nodup := (nodup_fps_perm (rank_perm sc s.cached)).mpr hw.nodup
+  have hae : (rank sc s.cached).find? (·.fp == a.fp) = some a :=
+    find_fp_eq hnd ((mem_rank sc a s.cached).mpr hac)
+  have hsw := hgap b hbc hbv' hbM a hac hma
+  have hd := decideActive_swaps env { s with cached := rank sc s.cached } now sc a b hact hbf
+    (by unfold activeEntry; simp only [hact]; exact hae) hsw
+  have hre : (reevaluate env s now sc).active =
+      (applyDecision { { s with cached := rank sc s.cached } with
+          bad := s.bad || (decideActive env { s with cached := rank sc s.cached } now sc).2.2 }
+        (decideActive env { s with cached := rank sc s.cached } now sc).1
+        (decideActive env { s with cached := rank sc s.cached } now sc).2.1).active := rfl
+  obtain ⟨hd1, hd2⟩ := hd
+  rw [hre, applyDecision_active, hd2]
+  generalize (decideActive env { s with cached := rank sc s.cached } now sc).1 = d at hd1 ⊢
+  have hne : ((some a).map (·.fp) == (some b).map (·.fp)) = false := by simpa using hfp
+  simp only [hact, hne]
+  simp [hd1]
+
+/-- **steer_away_partial.** Steer-away under an explicit score hypothesis, for every state satisfying the
+    structural invariant (`WF`: every reachable state, `run_wf`), every clock value and score assignment:
+    the queued report `m` (a target that can hit several paths: interface / first hop) matches the active
+    path `a`; some cached path `q` is valid and avoids the interface; and every valid cached path avoiding
+    it outscores every cached path crossing it by more than the (non-negative) swap threshold, the
+    difference rounded as the f32 subtraction of the code rounds it.  Then the delivery of the report
+    re-ranks, and the active path afterwards avoids the reported interface. -/
+theorem steer_away_partial (env : Env) (s : St) (now : Nat) (sc : Nat → Int) (m : Marker) (a q : Path)
+    (hw : WF s) (hthr : 0 ≤ env.cfg.swapThreshold)
+    (hp : s.pending = [m]) (happ : m.target.appliesTo env.src env.dst = true)
+    (hmulti : m.target.multi = true)
+    (hact : s.active = some a) (hma : m.target.matchesPath a = true)
+    (hq : q ∈ s.cached) (hqv : checkExpiry q now env.cfg.minExpiryThreshold = .valid)
+    (hqm : m.target.matchesPath q = false)
+    (hgap : ∀ b ∈ s.cached, checkExpiry b now env.cfg.minExpiryThreshold = .valid →
+      m.target.matchesPath b = false →
+      ∀ e ∈ s.cached, m.target.matchesPath e = true →
+        env.cfg.swapThreshold < f32Round (sc b.fp - sc e.fp)) :
+    ∃ b, (deliver env s now sc).active = some b ∧ m.target.matchesPath b = false := by
+  have hac : a ∈ s.cached := hw.active_mem a hact
+  have haff : affectsActive s m = true := by
+    unfold affectsActive
+    simp only [hact, hmulti, if_true]
+    rw [List.any_eq_true]
+    exact ⟨a, hac, by simp [hma]⟩
+  have hw1 : WF { s with pending := [] } := ⟨hw.active_mem, hw.nodup⟩
+  have := reevaluate_steers env { s with pending := [] } now sc (fun p => m.target.matchesPath p)
+    hw1 hthr a hact hma q hq hqv hqm hgap
+  unfold deliver
+  simp only [hp, happ, Bool.not_true, Bool.false_eq_true, if_false, List.filter_cons, List.filter_nil,
+    if_true, List.any_cons, List.any_nil, Bool.or_false, haff]
+  exact this
+
 /- **steer_away** (full statement, FALSE – see the witness below):
      the active path `a` matches the reported target, a valid cached path `q` does not
      ⟹ after delivery the active path does not match the target.
-   The version with the hypothesis "`q` outscores every matching cached path by more than the swap
-   threshold" is exercised on the real code by the harness, not proved. -/
+   `steer_away_partial` above is the version with a score hypothesis; the harness oracle `C07:steer-away`
+   checks a slightly weaker-hypothesis variant (one alternative outscoring all affected paths) on the real code. -/
 
 private def pa : Path := ⟨1, some 9000, 1, 2, some [⟨1, 1⟩, ⟨7, 1⟩, ⟨7, 4⟩, ⟨2, 1⟩], some 1, some 1⟩
 private def pq : Path := ⟨2, some 9000, 1, 2, some [⟨1, 2⟩, ⟨8, 2⟩, ⟨8, 5⟩, ⟨2, 2⟩], some 2, some 2⟩
@@ -193,5 +382,12 @@ theorem steer_away_witness :
 example : sS.active = some pa ∧ sS.cached = [pa, pq] := by decide
 example : (deliver envS sS (3 * NS) scOne).active = some pq := by decide
 example : (Target.interface 7 none 4).matchesPath pq = false := by decide
+/-- the premises of `steer_away_partial` are satisfiable: the reachable state `sS` with only the active
+    path penalised -/
+example : ∃ b, (deliver envS sS (3 * NS) scOne).active = some b ∧
+    (Target.interface 7 none 4).matchesPath b = false :=
+  steer_away_partial envS sS (3 * NS) scOne ⟨.interface 7 none 4, 3 * NS⟩ pa pq
+    (run_wf envS 0 opsS (by decide)).1 (by decide) (by decide) (by decide) (by decide) (by decide)
+    (by decide) (by decide) (by decide) (by decide) (by decide)
 
 end ScionVerif.PathMgr
